@@ -144,13 +144,13 @@ Definition alpha (T : list (str * Z)) (a : satom) : option Z :=
 Record ringq := { q_l : nat; q_r : nat; q_order : Z; q_lm : option N; q_rm : option N }.
 
 Record dstate := {
-  d_atoms : list (satom * Z);           (* atom with its alpha *)
-  d_nbrs : list (list slot);
-  d_parent : list bool;                 (* has a preceding atom (first slot) *)
-  d_rings : list ringq
+  dg_atoms : list (satom * Z);           (* atom with its alpha *)
+  dg_nbrs : list (list nslot);
+  dg_parent : list bool;                 (* has a preceding atom (first nslot) *)
+  dg_rings : list ringq
 }.
 
-Definition d_empty := {| d_atoms := []; d_nbrs := []; d_parent := []; d_rings := [] |}.
+Definition dg_empty := {| dg_atoms := []; dg_nbrs := []; dg_parent := []; dg_rings := [] |}.
 
 (* index symbols: the next L tokens from position pos (missing ones count 0) *)
 Definition read_Q (toks : list str) (pos L : nat) : N * nat (* value, symbols really read *) :=
@@ -209,8 +209,8 @@ Fixpoint dd (fuel : nat) (pos : nat) (left : option nat) (state : Z) (cur : opti
           | Some m =>
             let target := (m - S (N.to_nat Q))%nat in      (* max(0, m - (Q+1)) *)
             let order := Z.min o state in
-            let d2 := {| d_atoms := d_atoms d; d_nbrs := d_nbrs d; d_parent := d_parent d;
-                         d_rings := d_rings d ++ [{| q_l := target; q_r := m; q_order := order; q_lm := lm; q_rm := rm |}] |} in
+            let d2 := {| dg_atoms := dg_atoms d; dg_nbrs := dg_nbrs d; dg_parent := dg_parent d;
+                         dg_rings := dg_rings d ++ [{| q_l := target; q_r := m; q_order := order; q_lm := lm; q_rm := rm |}] |} in
             if state - order =? 0 then Ok (skip pos2 left2, d2)
             else dd f pos2 left2 (state - order) cur d2
           end
@@ -225,12 +225,12 @@ Fixpoint dd (fuel : nat) (pos : nat) (left : option nat) (state : Z) (cur : opti
       | None => Err DecoderError
       | Some al =>
         let mu := Z.min (Z.min beta al) state in
-        let k := length (d_atoms d) in
+        let k := length (dg_atoms d) in
         if mu =? 0 then
           if state =? 0 then
             (* X_0: the atom starts a new (sub)molecule *)
-            let d2 := {| d_atoms := d_atoms d ++ [(a, al)]; d_nbrs := d_nbrs d ++ [[]];
-                         d_parent := d_parent d ++ [false]; d_rings := d_rings d |} in
+            let d2 := {| dg_atoms := dg_atoms d ++ [(a, al)]; dg_nbrs := dg_nbrs d ++ [[]];
+                         dg_parent := dg_parent d ++ [false]; dg_rings := dg_rings d |} in
             if al =? 0 then Ok (skip pos1 left1, d2) else dd f pos1 left1 al (Some k) d2
           else Ok (skip pos1 left1, d)        (* alpha = 0: nothing can be derived *)
         else
@@ -239,9 +239,9 @@ Fixpoint dd (fuel : nat) (pos : nat) (left : option nat) (state : Z) (cur : opti
           | Some p =>
             let sp := {| sl_to := k; sl_order2 := 2 * mu; sl_mark := mark; sl_ring := false |} in
             let sk := {| sl_to := p; sl_order2 := 2 * mu; sl_mark := mark; sl_ring := false |} in
-            let d2 := {| d_atoms := d_atoms d ++ [(a, al)];
-                         d_nbrs := upd (d_nbrs d) p (fun l => l ++ [sp]) ++ [[sk]];
-                         d_parent := d_parent d ++ [true]; d_rings := d_rings d |} in
+            let d2 := {| dg_atoms := dg_atoms d ++ [(a, al)];
+                         dg_nbrs := upd (dg_nbrs d) p (fun l => l ++ [sp]) ++ [[sk]];
+                         dg_parent := dg_parent d ++ [true]; dg_rings := dg_rings d |} in
             if al - mu =? 0 then Ok (skip pos1 left1, d2) else dd f pos1 left1 (al - mu) (Some k) d2
           end
       end
@@ -251,24 +251,24 @@ Fixpoint dd (fuel : nat) (pos : nat) (left : option nat) (state : Z) (cur : opti
 End Derive.
 
 (* ---------- second pass: ring formation ---------- *)
-Definition used (row : list slot) : Z := fold_left (fun acc s => acc + sl_order2 s) row 0 / 2.
+Definition used (row : list nslot) : Z := fold_left (fun acc s => acc + sl_order2 s) row 0 / 2.
 
-Definition set_order2 (row : list slot) (partner : nat) (o2 : Z) : list slot :=
+Definition set_order2 (row : list nslot) (partner : nat) (o2 : Z) : list nslot :=
   map (fun s => if Nat.eqb (sl_to s) partner
                 then {| sl_to := sl_to s; sl_order2 := o2;
                         sl_mark := if o2 =? 2 then sl_mark s else None;   (* marks are written on single bonds only *)
                         sl_ring := sl_ring s |}
                 else s) row.
 
-Definition ring_count (row : list slot) : nat := length (filter sl_ring row).
+Definition ring_count (row : list nslot) : nat := length (filter sl_ring row).
 
 Definition form_one (d : dstate) (q : ringq) : dstate :=
   let l := q_l q in let r := q_r q in
   if Nat.eqb l r then d else
-  match nth_error (d_atoms d) l, nth_error (d_atoms d) r with
+  match nth_error (dg_atoms d) l, nth_error (dg_atoms d) r with
   | Some (_, al), Some (_, ar) =>
-    let rowl := nth l (d_nbrs d) [] in
-    let rowr := nth r (d_nbrs d) [] in
+    let rowl := nth l (dg_nbrs d) [] in
+    let rowr := nth r (dg_nbrs d) [] in
     let lfree := al - used rowl in
     let rfree := ar - used rowr in
     if (lfree <=? 0) || (rfree <=? 0) then d else
@@ -276,17 +276,17 @@ Definition form_one (d : dstate) (q : ringq) : dstate :=
     match find (fun s => Nat.eqb (sl_to s) r) rowl with
     | Some s =>
         let new := Z.min (order + sl_order2 s / 2) 3 in
-        {| d_atoms := d_atoms d;
-           d_nbrs := upd (upd (d_nbrs d) l (fun row => set_order2 row r (2 * new))) r (fun row => set_order2 row l (2 * new));
-           d_parent := d_parent d; d_rings := d_rings d |}
+        {| dg_atoms := dg_atoms d;
+           dg_nbrs := upd (upd (dg_nbrs d) l (fun row => set_order2 row r (2 * new))) r (fun row => set_order2 row l (2 * new));
+           dg_parent := dg_parent d; dg_rings := dg_rings d |}
     | None =>
-        let posl := ((if nth l (d_parent d) false then 1 else 0) + ring_count rowl)%nat in
-        let posr := ((if nth r (d_parent d) false then 1 else 0) + ring_count rowr)%nat in
+        let posl := ((if nth l (dg_parent d) false then 1 else 0) + ring_count rowl)%nat in
+        let posr := ((if nth r (dg_parent d) false then 1 else 0) + ring_count rowr)%nat in
         let sl_ := {| sl_to := r; sl_order2 := 2 * order; sl_mark := q_lm q; sl_ring := true |} in
         let sr_ := {| sl_to := l; sl_order2 := 2 * order; sl_mark := q_rm q; sl_ring := true |} in
-        {| d_atoms := d_atoms d;
-           d_nbrs := upd (upd (d_nbrs d) l (fun row => insert_at row posl sl_)) r (fun row => insert_at row posr sr_);
-           d_parent := d_parent d; d_rings := d_rings d |}
+        {| dg_atoms := dg_atoms d;
+           dg_nbrs := upd (upd (dg_nbrs d) l (fun row => insert_at row posl sl_)) r (fun row => insert_at row posr sr_);
+           dg_parent := dg_parent d; dg_rings := dg_rings d |}
     end
   | _, _ => d
   end.
@@ -310,9 +310,9 @@ Fixpoint derive_all (T : list (str * Z)) (frs : list (list str)) (d : dstate) : 
   end.
 
 Definition grammar_eval (T : list (str * Z)) (ts : list str) : res smol :=
-  do d <- derive_all T (fragments ts []) d_empty;
-  let d' := fold_left form_one (d_rings d) d in
-  Ok {| sm_atoms := map fst (d_atoms d'); sm_nbrs := d_nbrs d' |}.
+  do d <- derive_all T (fragments ts []) dg_empty;
+  let d' := fold_left form_one (dg_rings d) d in
+  Ok {| sm_atoms := map fst (dg_atoms d'); sm_nbrs := dg_nbrs d' |}.
 
 (* equality of abstract molecules (what C02 compares) *)
 Definition opt_eqb {A} (f : A -> A -> bool) (a b : option A) : bool :=
@@ -320,7 +320,7 @@ Definition opt_eqb {A} (f : A -> A -> bool) (a b : option A) : bool :=
 Definition satom_eqb (a b : satom) : bool :=
   str_eqb (sa_elem a) (sa_elem b) && Bool.eqb (sa_arom a) (sa_arom b) && opt_eqb N.eqb (sa_iso a) (sa_iso b)
   && opt_eqb str_eqb (sa_chi a) (sa_chi b) && opt_eqb N.eqb (sa_h a) (sa_h b) && Z.eqb (sa_charge a) (sa_charge b).
-Definition slot_eqb (a b : slot) : bool :=
+Definition slot_eqb (a b : nslot) : bool :=
   Nat.eqb (sl_to a) (sl_to b) && Z.eqb (sl_order2 a) (sl_order2 b) && opt_eqb N.eqb (sl_mark a) (sl_mark b)
   && Bool.eqb (sl_ring a) (sl_ring b).
 Fixpoint list_eqb {A} (f : A -> A -> bool) (a b : list A) : bool :=
